@@ -164,10 +164,9 @@ _EFF_CACHE = {}
 
 def effects(ctx) -> Effects:
     from rules import common
-    k = id(ctx.src)
-    if k not in _EFF_CACHE:
-        _EFF_CACHE[k] = Effects(common.program(ctx))
-    return _EFF_CACHE[k]
+    if getattr(ctx.src, "_verif_eff", None) is None:
+        ctx.src._verif_eff = Effects(common.program(ctx))
+    return ctx.src._verif_eff
 
 
 def check_own(ctx, fields):
